@@ -752,7 +752,6 @@ func checkDivisions(w *World, r *Report, reach map[*ssa.Function]bool) {
 	r.Counts["integer divisions by non-constants"] = n
 }
 
-
 // negatedTypeTest: f is a function value `func(v interface{}) bool` of the package that returns
 // true exactly when v is NOT of some type T (`_, ok := v.(T); return !ok`); returns T.
 func negatedTypeTest(f ssa.Value) (types.Type, bool) {
